@@ -22,7 +22,7 @@ One boolean of `Cfg` per known defect class of the current generator (DESIGN §9
 the real tool once per run and selects the setting:
 * `unnamedFixed`: unnamed parameters (`func(int, string)`) no longer print `f(, )`;
 * `shadowFixed`: a parameter called like the generator's own binder (`f`) no longer captures it;
-* `crossFixed`: uncurry no longer merges clashing outer/inner parameter names into one list;
+* `crossFixed`: uncurry renames an inner parameter that bears the name of the outer one (94a60e5);
 * `voidFixed`: a wrapped function without results is no longer forwarded as `return f(…)`
   (found by this check; curry, uncurry, flip and apply are affected).
 A repaired generator is modelled as one that switches to positional names (`param_<i>`) in the
@@ -199,14 +199,24 @@ def applyTm (cfg : Cfg) (ps0 : List Param) (nres : Nat) : Tm :=
   .lam (fBinder [ps] nres :: binders last)
     (.lam (binders others) (.call fName [names ps] (retFlag cfg nres)))
 
-/-- the two parameter lists of plugin/uncurry after `Add` (`param_` outside, `innerParam_` inside) -/
+/-- plugin/uncurry `renameParam` (94a60e5): an inner parameter that bears the name `x` of the outer one
+(if that is a real name) becomes `innerParam_<its index in the inner list>` -/
+def renameParam (x : Name) (pre : Name) : Nat → List Param → List Param
+  | _, [] => []
+  | i, p :: rest =>
+    (if x != [] && x != blank && p.name == x then { p with name := genName pre i } else p)
+      :: renameParam x pre (i + 1) rest
+
+/-- the name of the (single) outer parameter as the user wrote it -/
+def outerName : List Param → Name
+  | [p] => p.name
+  | _ => []
+
+/-- the two parameter lists of plugin/uncurry after `Add`: with `crossFixed`, first `renameParam` on the
+inner list, then the blank renaming with `innerParam_` inside and `param_` outside -/
 def uncurryParams (cfg : Cfg) (outer0 inner0 : List Param) : List Param × List Param :=
-  let outer := effParams cfg [fName] paramPrefix outer0
-  let inner := effParams cfg [fName] innerPrefix inner0
-  let all := names (uncurrySig outer inner)
-  if cfg.crossFixed && all.any (fun n => n != [] && n != blank && all.count n > 1) then
-    (positionalFrom paramPrefix 0 outer0, positionalFrom innerPrefix 0 inner0)
-  else (outer, inner)
+  let inner1 := if cfg.crossFixed then renameParam (outerName outer0) innerPrefix 0 inner0 else inner0
+  (effParams cfg [fName] paramPrefix outer0, effParams cfg [fName] innerPrefix inner1)
 
 /-- plugin/uncurry: `func deriveUncurry(f F) func(outer…, inner…) R { return func(outer…, inner…) R { return f(outer)(inner) } }` -/
 def uncurryTm (cfg : Cfg) (outer0 inner0 : List Param) (nres : Nat) : Tm :=
